@@ -174,6 +174,44 @@ pub fn run_gchunk(line: &str) -> Obs {
     r.unwrap_or(vec![vec![99]])
 }
 
+/// Family `grdr` (C05, C06): the input of `reader`, observed at memory level against hcobs/GeoReader.v.
+/// Per returned record: [1, range start, range end], the seven iovec fields of family geo for the iovec handed out,
+/// [live chunks, live bytes, every slice in live memory]; at the end [stream stays ended, last_sentinel_offset] and
+/// [live chunks, live bytes].
+pub fn run_grdr(line: &str) -> Obs {
+    use crate::iovw::World;
+    let t: Vec<&str> = line.split_whitespace().collect();
+    let bs: Option<usize> = if t[0] == "-" { None } else { Some(t[0].parse().unwrap()) };
+    let max: usize = if t[1] == "-" { usize::MAX } else { t[1].parse().unwrap() };
+    let limit: Option<u64> = if t[2] == "-" { None } else { Some(t[2].parse().unwrap()) };
+    let stream = unhex(t[3]);
+    let mut w = World::fresh();
+    let r = catch(|| {
+        let mut rd = Sched { stream: &stream, off: 0, sched: t[4..].to_vec(), pos: 0 };
+        let judge = StreamReader::chunk_judge(max, limit);
+        let mut reader = StreamReader::new();
+        let mut obs: Obs = Vec::new();
+        for _ in 0..(stream.len() + 3) {
+            match reader.next_record_bytes(&mut rd, &judge, bs).expect("no hard error") {
+                None => break,
+                Some((iov, range)) => {
+                    obs.push(vec![1, range.start as i128, range.end as i128]);
+                    let ok = w.observe_one(iov, &mut obs);
+                    obs.push(w.globals(ok));
+                }
+            }
+        }
+        let mut ended = true;
+        for _ in 0..2 {
+            ended &= reader.next_record_bytes(&mut rd, &judge, bs).expect("no hard error").is_none();
+        }
+        obs.push(vec![ended as i128, reader.last_sentinel_offset() as i128]);
+        obs.push(w.globals(true)[..2].to_vec());
+        obs
+    });
+    r.unwrap_or(vec![vec![99]])
+}
+
 pub fn run_reader(line: &str) -> Obs {
     let t: Vec<&str> = line.split_whitespace().collect();
     let bs: Option<usize> = if t[0] == "-" { None } else { Some(t[0].parse().unwrap()) };
